@@ -85,6 +85,7 @@ fn run_tokens(toks: &[&str]) -> String {
         "UNIX" => chan_time::unix(args),
         "TSTR" => chan_time::tstr(args),
         "TSFMT" => chan_time::tsfmt(args),
+        "TSTRESS" => chan_time::tstress(args),
         "NOW" => chan_time::now(args),
         "TICK" => chan_time::tick(args),
         "REALNOW" => chan_time::realnow(args),
